@@ -562,7 +562,9 @@ pub fn minimise(case: &ZoneCase, z: &RefZone, fail: &Fail) -> (Vec<u8>, Fail) {
         return (best_bytes, best);
     }
     let mut i = 0;
-    while i < spec.trans.len() {
+    let mut attempts = 0;
+    while i < spec.trans.len() && attempts < 400 {
+        attempts += 1;
         let mut c = spec.clone();
         c.trans.remove(i);
         let b = c.build();
@@ -580,7 +582,18 @@ pub fn minimise(case: &ZoneCase, z: &RefZone, fail: &Fail) -> (Vec<u8>, Fail) {
     (best_bytes, best)
 }
 
-pub fn to_violation(seed: u64, run: u64, case: &ZoneCase, z: &RefZone, f: &Fail) -> Violation {
+pub fn to_violation(seed: u64, run: u64, case: &ZoneCase, z: &RefZone, f: &Fail, instants: &[i64]) -> Violation {
+    let full = Json::obj()
+        .set("property", Json::s("C18"))
+        .set("engine", Json::s("tzsim"))
+        .set("invariant", Json::s(f.invariant))
+        .set("seed", Json::Int(seed as i128))
+        .set("run", Json::Int(run as i128))
+        .set("zone", Json::s(&case.label))
+        .set("tzif_hex", Json::s(&hex(&case.bytes)))
+        .set("instants", Json::Arr(instants.iter().map(|t| Json::Int(*t as i128)).collect()))
+        .set("observed", Json::s(&f.observed))
+        .set("expected", Json::s(&f.expected));
     let (bytes, mf) = if f.invariant.starts_with("Z0-parse") { (case.bytes.clone(), f.clone()) } else { minimise(case, z, f) };
     let key = match &mf.panic {
         Some(p) => format!("{}:{}", mf.invariant, p.key()),
@@ -614,6 +627,7 @@ pub fn to_violation(seed: u64, run: u64, case: &ZoneCase, z: &RefZone, f: &Fail)
                     None => Json::Null,
                 },
             ),
+        replay_full: Some(full),
     }
 }
 
@@ -767,7 +781,7 @@ pub fn one_run(w: &Work, seed: u64, idx: u64, stats: &mut Stats) -> Option<u64> 
                 std::process::exit(2);
             }
             let h = fnv(format!("{:?}", (&f.invariant, f.t, &f.observed)).as_bytes());
-            stats.violations.push(to_violation(seed, idx, &case, &z, &f));
+            stats.violations.push(to_violation(seed, idx, &case, &z, &f, &instants));
             Some(h)
         }
     }
